@@ -120,6 +120,11 @@ let run (cmd : string) (a : v list) : string =
   | "cover_dec", [keep; c; ns; vs] -> pbins (Covering.cover_decreasing vof (bool_ keep) (z_ c) (items ns vs))
   | "cover_23", [keep; c; ns; vs] -> pbins (Covering.cover_twothirds vof (bool_ keep) (z_ c) (items ns vs))
   | "cover_34", [keep; c; ns; vs] -> pbins (Covering.cover_threequarters vof (bool_ keep) (z_ c) (items ns vs))
+  | "multifit", [keep; it; k; ns; vs] -> pres pbins (Multifit.multifit vof (bool_ keep) (nat_ it) (nat_ k) (items ns vs))
+  | "multifit_trace", [it; k; vs] ->
+      pres (fun (tr, cap) ->
+          "[" ^ plist (fun ((m, e), n) -> "[" ^ pz m ^ "," ^ pz e ^ "," ^ pnat n ^ "]") tr ^ ",[" ^ pz (fst cap) ^ "," ^ pz (snd cap) ^ "]]")
+        (Multifit.multifit_trace (nat_ it) (nat_ k) (zlist vs))
   | "kk", [keep; k; ns; vs] -> pres pbins (KK.kk vof (bool_ keep) (nat_ k) (items ns vs))
   | "ckk", [keep; k; ns; vs] -> pres pbins (KK.ckk vof nof (bool_ keep) (nat_ k) (items ns vs))
   | "ckk_nodes", [keep; k; ns; vs] ->
